@@ -485,6 +485,30 @@ func checkC05(r *Result) {
 		}
 		r.check(n == 2, "RECORD-EQUALS-TAKEN", "(x/reporter/keeper.Keeper).EscrowReporterStake # two chases per backer", P.Pos(es.Pos()), fmt.Sprint(n))
 	}
+	// every success path that took stake out of the ledger also moved the coins (and, where a record is kept, wrote it)
+	{
+		unbond := P.CallEvent(func(c *CallSite) bool { return strings.HasSuffix(c.Callee, "StakingKeeper.Unbond") }, T)
+		moved := P.CallEvent(func(c *CallSite) bool {
+			return c.Callee == "(x/reporter/keeper.Keeper).tokensToDispute" || c.Callee == "(x/reporter/keeper.Keeper).MoveTokensFromValidator"
+		}, T)
+		if fn := need("(x/reporter/keeper.Keeper).deductFromdelegation"); fn != nil {
+			requireAtSuccess(r, "PAIR-UNBOND", fn, "a success path that unbonded also moved the coins", []Atom{{Name: "unbonded", Event: unbond}, {Name: "moved", Event: moved}},
+				func(v map[string]bool) bool { return !v["unbonded"] || v["moved"] })
+		}
+		if fn := need("(x/reporter/keeper.Keeper).FeefromReporterStake"); fn != nil {
+			requireAtSuccess(r, "PAIR-UNBOND", fn, "a success path that unbonded also moved the coins and stored the fee tracker", []Atom{{Name: "unbonded", Event: unbond}, {Name: "moved", Event: moved},
+				{Name: "recorded", Event: P.CallEvent(descIs("coll:x/reporter/keeper.Keeper.FeePaidFromStake.Set"), T)}},
+				func(v map[string]bool) bool { return !v["unbonded"] || (v["moved"] && v["recorded"]) })
+		}
+		if fn := need("(x/reporter/keeper.Keeper).deductUnbondingDelegation"); fn != nil {
+			requireAtSuccess(r, "PAIR-UNBOND", fn, "a success path that rewrote the unbonding delegation also moved the coins", []Atom{
+				{Name: "rewritten", Event: P.CallEvent(func(c *CallSite) bool {
+					return strings.HasSuffix(c.Callee, "StakingKeeper.SetUnbondingDelegation") || strings.HasSuffix(c.Callee, "StakingKeeper.RemoveUnbondingDelegation")
+				}, T)},
+				{Name: "moved", Event: moved}},
+				func(v map[string]bool) bool { return v["rewritten"] == v["moved"] })
+		}
+	}
 	r.minCount("CENSUS-STAKING", 8)
 	r.minCount("PAIR-DELEGATE", 10)
 	r.minCount("PAIR-UNBOND", 7)
